@@ -301,6 +301,10 @@ pub fn minimise(check: &dyn Check, mut v: Violation, budget: usize) -> Violation
             }
             tries += 1;
             if let Some((detail, observed, trace, choices)) = still_fails(&c) {
+                // an unexpected error must stay the *same* error while shrinking
+                if v.class == "unexpected-error" && err_key(&detail) != err_key(&v.detail) {
+                    continue;
+                }
                 let mut c = c;
                 c.detail = detail;
                 c.observed = observed;
@@ -331,6 +335,10 @@ pub fn minimise(check: &dyn Check, mut v: Violation, budget: usize) -> Violation
             return v;
         }
     }
+}
+
+fn err_key(detail: &str) -> String {
+    detail.chars().filter(|c| !c.is_ascii_digit()).take(28).collect()
 }
 
 pub struct CampaignResult {
